@@ -23,7 +23,7 @@ ENUM = {
                  dict(module="MC_GeomValidate", cfg="MC_GeomValidate_cov.cfg", workers=4, coverage=True, expect_cases=False)],
 }
 POOL = 12
-CHUNK = 2500
+CHUNK = 1200
 RULE = ("one case per (type tag, coordinate structure) of the TLA+ universe (flat lists over the value alphabet, scalars, "
         "extra nesting, point lists, valid skeletons of the nine kinds, every single-position token edit of every skeleton, "
         "every skeleton under every tag; thorough: every double edit of the small skeletons) plus random multi-edit structures; "
